@@ -317,7 +317,9 @@ func (d Decimal) Mod(input Decimal) Decimal {
 
 // ToProtoDecimal returns the proto Decimal representation of decimal.
 func (d Decimal) ToProtoDecimal() *dtpb.Decimal {
-	return fhir.Decimal(decimal.Decimal(d).InexactFloat64())
+	// The decimal text is carried over as is: a float64 would drop digits
+	// beyond its precision (FHIR decimals are arbitrary-precision strings).
+	return &dtpb.Decimal{Value: decimal.Decimal(d).String()}
 }
 
 // Round rounds a Decimal at the provided precision.
